@@ -42,7 +42,7 @@ var (
 	// SpecFieldPattern special result field pattern
 	SpecFieldPattern = regexp.MustCompile(`(\/\*!(M?[0-9]{5,6})?|\*\/)`)
 	specCodePattern  = regexp.MustCompile(`\/\*!(M?[0-9]{5,6})?([^*]|\*+[^*/])*\*+\/`)
-	specCodeStart    = regexp.MustCompile(`^\/\*!(M?[0-9]{5,6})?[ \t]*`)
+	specCodeStart    = regexp.MustCompile(`^\/\*!(M?[0-9]{5,6})?\s*`) // \s*: sqlOffsetInComment skips every kind of white space behind the version number
 	specCodeEnd      = regexp.MustCompile(`[ \t]*\*\/$`)
 )
 
